@@ -59,7 +59,7 @@ pub enum Case {
     /// 2^32+1 byte message through an encoder that only reserves (never touches) the bytes
     EncodeHuge { server: bool, pre: u8, pend_before: u8 },
     /// limits configured on generated client/server (plumbing)
-    PlumbedServer { limit: usize, delta: i64, encode_side: bool },
+    PlumbedServer { limit: usize, delta: i64, encode_side: bool, #[serde(default)] sized: bool, #[serde(default)] stream: bool },
     PlumbedClient { limit: usize, delta: i64, encode_side: bool, #[serde(default)] via_clone: bool, #[serde(default)] other_limit: Option<usize>, #[serde(default)] stream: bool },
 }
 
@@ -107,7 +107,7 @@ pub fn strategy() -> BoxedStrategy<Case> {
         });
     let pl = (proptest::sample::select(&[5usize, 100, 4096][..]), -1i64..=1, any::<bool>(), any::<bool>()).prop_map(|(limit, delta, encode_side, server)| {
         if server {
-            Case::PlumbedServer { limit, delta, encode_side }
+            Case::PlumbedServer { limit, delta, encode_side, sized: limit != 100 || delta <= 0, stream: limit == 4096 }
         } else {
             Case::PlumbedClient { limit, delta, encode_side, via_clone: limit % 2 == 0 || delta == 1, other_limit: if delta == 0 { Some(limit * 8 + 3) } else { None }, stream: encode_side && delta != 0 }
         }
@@ -391,7 +391,7 @@ fn run_encode_huge(server: bool, pre: u8, pend_before: u8, o: &mut Outcome) -> R
     judge_encode_failure(&out, server, &expect, None, Code::ResourceExhausted, "4GiB")
 }
 
-fn run_plumbed_server(limit: usize, delta: i64, encode_side: bool, o: &mut Outcome) -> Result<(), Failure> {
+fn run_plumbed_server(limit: usize, delta: i64, encode_side: bool, sized: bool, stream: bool, o: &mut Outcome) -> Result<(), Failure> {
     o.label("plumbed_generated_server");
     o.nontrivial = true;
     let len = (limit as i64 + delta).max(0) as usize;
@@ -412,8 +412,12 @@ fn run_plumbed_server(limit: usize, delta: i64, encode_side: bool, o: &mut Outco
     } else {
         let sh = Shared::new(vec![HandlerScript { msgs: vec![RespMsg { data: Blob::of(b"r"), pend: 0, delay_ms: 0 }], ..Default::default() }]);
         let mut svc = vt::raw_server::RawServer::new(sh.clone()).max_decoding_message_size(limit);
-        let body = ScriptBody::new(vec![BodyStep::Data(Bytes::from(wire::frame(0, &payload_of(len, 3))))]);
-        let ans = mock::call_service(&mut svc, mock::grpc_request("/vt.Raw/Unary", &[], body), 256).map_err(|e| Failure { sig: "C06/plumbed-server-call".into(), detail: e })?;
+        let mut body = ScriptBody::new(vec![BodyStep::Data(Bytes::from(wire::frame(0, &payload_of(len, 3))))]);
+        // a peer that announces the size of its body (content-length, or an in-process `Full` body)
+        body.sized = sized;
+        o.label_if(sized, "request_body_announces_its_size");
+        let path = if stream { "/vt.Raw/ServerStream" } else { "/vt.Raw/Unary" };
+        let ans = mock::call_service(&mut svc, mock::grpc_request(path, &[], body), 256).map_err(|e| Failure { sig: "C06/plumbed-server-call".into(), detail: e })?;
         let st = ans.status_obj();
         let entered = !sh.log.lock().unwrap().is_empty();
         if over {
@@ -492,7 +496,7 @@ pub fn run(c: &Case, o: &mut Outcome) -> Result<(), Failure> {
             run_encode(*server, *limit, *buffer_size, *yield_threshold, pre, *over_by, *post, src_pend, *enc, o)
         }
         Case::EncodeHuge { server, pre, pend_before } => run_encode_huge(*server, *pre, *pend_before, o),
-        Case::PlumbedServer { limit, delta, encode_side } => run_plumbed_server(*limit, *delta, *encode_side, o),
+        Case::PlumbedServer { limit, delta, encode_side, sized, stream } => run_plumbed_server(*limit, *delta, *encode_side, *sized, *stream, o),
         Case::PlumbedClient { limit, delta, encode_side, via_clone, other_limit, stream } => run_plumbed_client(*limit, *delta, *encode_side, *via_clone, *other_limit, *stream, o),
     }
 }
@@ -508,7 +512,7 @@ impl Prop for C06 {
         run(c, o)
     }
     fn rule() -> &'static str {
-        "proptest + enumerated boundary cases. Decode: Streaming::new_request/new_response with limit L in {default 4 MiB, 0, 1, 5, 100, 4096, 65536}; 0-3 acceptable earlier messages (sizes L, L-1, small) then a probe frame declaring L-1, L, L+1, L+k, 2L+2, 2^31, 2^32-1, 64 MiB or a random huge value, either with its payload (<= 8 MiB) and a following message, or with nothing following and the body left Pending; any chunking with a cut right after the prefix. Oracle: accepted iff declared <= L; refusal is OUT_OF_RANGE produced on the poll that delivered the prefix (never Pending), earlier messages intact, nothing afterwards; for declared >= 64 MiB the counting global allocator saw no single request >= declared/2. Compressed frames whose wire length is <= L but which decompress to up to 20 L must be accepted. Encode: EncodeBody both roles with limit L, a message of encoded size L+1 (or L+k) at position p after p acceptable messages ready in the same batch or flushed earlier, with further messages behind it; oracle: exactly the p earlier messages, in order, in whole frames before the OUT_OF_RANGE status (trailers for a server, body error for a client), nothing from position >= p, no DATA after the status. A 2^32+1-byte message (encoder that reserves without touching) must give RESOURCE_EXHAUSTED with the same guarantees. Plumbing: max_{en,de}coding_message_size on generated client and server at L-1, L, L+1. Non-trivial: oversize with an earlier message in the same batch / before it, or declared-but-absent payload."
+        "proptest + enumerated boundary cases. Decode: Streaming::new_request/new_response with limit L in {default 4 MiB, 0, 1, 5, 100, 4096, 65536}; 0-3 acceptable earlier messages (sizes L, L-1, small) then a probe frame declaring L-1, L, L+1, L+k, 2L+2, 2^31, 2^32-1, 64 MiB or a random huge value, either with its payload (<= 8 MiB) and a following message, or with nothing following and the body left Pending; any chunking with a cut right after the prefix. Oracle: accepted iff declared <= L; refusal is OUT_OF_RANGE produced on the poll that delivered the prefix (never Pending), earlier messages intact, nothing afterwards; for declared >= 64 MiB the counting global allocator saw no single request >= declared/2. Compressed frames whose wire length is <= L but which decompress to up to 20 L must be accepted. Encode: EncodeBody both roles with limit L, a message of encoded size L+1 (or L+k) at position p after p acceptable messages ready in the same batch or flushed earlier, with further messages behind it; oracle: exactly the p earlier messages, in order, in whole frames before the OUT_OF_RANGE status (trailers for a server, body error for a client), nothing from position >= p, no DATA after the status. A 2^32+1-byte message (encoder that reserves without touching) must give RESOURCE_EXHAUSTED with the same guarantees. Plumbing: max_{en,de}coding_message_size on generated client and server at L-1, L, L+1. Non-trivial: oversize with an earlier message in the same batch / before it, or declared-but-absent payload. Also: request bodies with an exact size_hint (as hyper reports for content-length) at L-6..L+1 through the generated server."
     }
     fn assumptions() -> Vec<String> {
         vec![
@@ -518,7 +522,7 @@ impl Prop for C06 {
     }
     fn cases(t: Tier) -> u64 {
         match t {
-            Tier::Quick => 8_000,
+            Tier::Quick => 32_000,
             Tier::Thorough => 200_000,
         }
     }
@@ -538,7 +542,11 @@ impl Prop for C06 {
         for limit in [5usize, 100, 4096] {
             for delta in [-1i64, 0, 1] {
                 for encode_side in [true, false] {
-                    v.push(Case::PlumbedServer { limit, delta, encode_side });
+                    for sized in [false, true] {
+                        for stream in [false, true] {
+                            v.push(Case::PlumbedServer { limit, delta, encode_side, sized, stream });
+                        }
+                    }
                     for via_clone in [false, true] {
                         v.push(Case::PlumbedClient { limit, delta, encode_side, via_clone, other_limit: Some(limit * 8 + 3), stream: false });
                         if encode_side {
